@@ -10,7 +10,8 @@ Writes Gen/AdjacentGen.v:
     proved for all topologies by case analysis (Qasm/TopoFacts.solve_gen_adjacent);
   * `gen_epr_order` — the order in which `cmd_epr` performs its refusals and its first qubit creation, read off the
     statement list of the method (for/else raise = unknown id, `self.name == remote_node_name` raise = self,
-    `not self.factory.is_adjacent(remote_node_name)` raise = adjacency, first statement mentioning `cmd_new` = create),
+    `not self.factory.is_adjacent(remote_node_name)` raise = adjacency, first statement mentioning `cmd_new` = create;
+    a top-level `try` whose handlers all end in a bare `raise` is read through: its body counts as top-level statements),
     with the obligation gen_epr_order_ok (= the order Topo.epr_check uses).
   * `gen_topology_source` — that __init__ assigns self.topology from `networks[network_name].topology` or None only.
 
@@ -144,7 +145,19 @@ def mentions(node, pred):
 def epr_order(fn):
     """order of the refusals and of the first creation in cmd_epr (top-level statements only)"""
     order = []
+    body = []
     for st in fn.body:
+        # since the D16(ii) repair the whole body is wrapped in `try: ... except Exception: <cleanup>; raise`: a refusal
+        # raised inside still leaves cmd_epr (every handler ends in a bare `raise`), so the statements of the try body are
+        # read as if they stood at top level.  Any other shape of try (else / finally / a handler that swallows) aborts.
+        if isinstance(st, ast.Try):
+            if st.orelse or st.finalbody or not st.handlers or not all(
+                    h.body and isinstance(h.body[-1], ast.Raise) and h.body[-1].exc is None for h in st.handlers):
+                fail(st, "try statement in cmd_epr whose handlers do not all re-raise (or with else/finally)")
+            body.extend(st.body)
+        else:
+            body.append(st)
+    for st in body:
         if is_docstring(st) or is_logger_call(st):
             continue
         tag = None
